@@ -300,7 +300,7 @@ def _code_as_identifier_non_pat_wildcard(
 
 
 def _is_valid_MatchClass_cls(ast: AST) -> bool:
-    if (f := ast.f).end_ln != f.ln:
+    if not ast.f._is_enclosed_or_line(check_pars=False):  # spans lines without line continuations and cannot be parenthesized here, if the lines are joined by line continuations then it can be put as it is
         raise NotImplementedError(f'cannot put multiline {ast.__class__.__name__} to MatchClass pattern expression')
 
     if _validate_pattern_attr(ast.f).id == '_':
